@@ -342,6 +342,13 @@ class Interp:
         if r == z3.sat:
             if ob.status != "refuted":
                 ob.status = "refuted"
+                # prefer a small counter-model (better chances of a native replay)
+                for fn in self.world.model_prefs_fns:
+                    for prefs in fn(self):
+                        r2, m2 = self._check([z3.Not(goal)] + list(prefs))
+                        if r2 == z3.sat:
+                            model = m2
+                            break
                 ob.model = self.extract_model(model)
                 ob.detail = f"path decisions={self.explorer.decisions[: self.explorer.pos]}"
             return False
@@ -421,7 +428,7 @@ class Interp:
             t = z3.Int(self.namer.fresh(label))
             self.assume(sor(*[t == c for c in dom]))
             return VAtom(t)
-        if spec.startswith("opt:"):
+        if isinstance(spec, str) and spec.startswith("opt:"):
             if self.choose(2, "opt " + label) == 0:
                 return atom(None)
             return self.fresh(spec[4:], label)
@@ -437,6 +444,11 @@ class Interp:
             shape = self.world.shape_of(cls)
             return VTuple([self.fresh(shape.get(n, "opaque"), f"{label}.{n}") for n in names],
                           names=names, cls=cls)
+        fe = getattr(self.world, "fresh_ext", None)
+        if fe is not None:
+            r = fe(self, spec, label)
+            if r is not None:
+                return r
         raise Unsupported(f"type spec {spec!r}")
 
     def fresh_list(self, elem, label):
@@ -503,6 +515,11 @@ class Interp:
             return z3.Or(v.cls != 0, v.val != 0)
         if isinstance(v, VExc):
             return z3.BoolVal(True)
+        te = getattr(self.world, "truth_ext", None)
+        if te is not None:
+            r = te(self, v)
+            if r is not None:
+                return r
         raise Unsupported(f"truthiness of {v!r}")
 
     def lift(self, obj, name=None):
@@ -824,6 +841,11 @@ class Interp:
             return z3.BoolVal(a.obj is b.obj)
         if isinstance(a, VOpaque) or isinstance(b, VOpaque):
             return z3.Bool(self.namer.fresh("is"))
+        ie = getattr(self.world, "identical_ext", None)
+        if ie is not None:
+            r = ie(self, a, b, node)
+            if r is not None:
+                return r
         if type(a) is not type(b):
             # values of different kinds are never the same object
             return z3.BoolVal(False)
